@@ -361,10 +361,23 @@ class CallMixin(ExprMixin):
                 raise Unsupported('*args at a contract call')
             vals[names[pos]] = self.eval(a)
             pos += 1
+        extra = None
         for kw in n.keywords:
-            if kw.arg is None or kw.arg not in C.params:
-                raise Unsupported('keyword %r at call of %s' % (kw.arg, C.key))
+            if kw.arg is None:
+                if C.varkw is None:
+                    raise Unsupported('**kwargs at call of %s' % C.key)
+                extra = self.refresh(self.eval(kw.value))
+                continue
+            if kw.arg not in C.params or kw.arg == C.varkw:
+                if C.varkw is None:
+                    raise Unsupported('keyword %r at call of %s' % (kw.arg, C.key))
+                if extra is None:
+                    extra = self.empty_dict(C.params[C.varkw])
+                extra = self.dict_set(extra, mk_str(kw.arg), self.eval(kw.value))
+                continue
             vals[kw.arg] = self.eval(kw.value)
+        if C.varkw is not None:
+            vals[C.varkw] = extra if extra is not None else self.empty_dict(C.params[C.varkw])
         return vals
 
     def defaults_of(self, C: FnContract) -> dict[str, ast.AST]:
@@ -533,6 +546,10 @@ class CallMixin(ExprMixin):
     def call_property(self, base: V, key: str) -> V:
         C = self.spec.functions[key]
         name = next(iter(C.params))
+        if C.spec_term is not None:
+            if callable(C.spec_term):
+                return C.spec_term(self, base)
+            return self.spec_eval(C.spec_term, {name: base}, entry=self.entry)
         return self.apply_contract(C, {name: base})
 
     def await_value(self, v: V) -> V:
